@@ -1086,7 +1086,14 @@ class ChannelFactory:
                 queue.put(item)
         else:
             try:
-                data = loads_internal(data, channel, strconfig)
+                if channel is None:
+                    # only the callback is left of the channel object:
+                    # channels inside the item still need the factory
+                    unserializer = Unserializer(BytesIO(data), None, strconfig)
+                    unserializer.channelfactory = self
+                    data = unserializer.load()
+                else:
+                    data = loads_internal(data, channel, strconfig)
                 callback(data)  # even if channel may be already closed
             except (Exception, SystemExit) as exc:
                 self.gateway._trace("exception during callback: %s" % exc)
